@@ -1,4 +1,5 @@
-\* manual mode with an interval() generator (period 4 = two ticks) driven through a stop token, next to ordinary sleeps
+\* manual mode with two interval() generators of one scheduler (periods 4 and 2 half ticks, same duration type), each
+\* driven through its own stop token, next to ordinary sleeps
 SPECIFICATION Spec
 CONSTANTS
   Mode = "manual"
@@ -11,10 +12,11 @@ CONSTANTS
   MaxOps = 0
   AllowRemove = FALSE
   Interval = 4
+  Interval2 = 2
   NC = 1
   MainRes = {"void"}
   MainVia = {"direct"}
   MaxRuns = 1
 INVARIANTS TypeOK HeapWellFormed LiveMatchesPending NeverEarly DeadlineOrder PromptManual CancelHitsOne NotifyWhenEarliest NothingAfterDestroy IntervalConsistent
-PROPERTIES ExactlyOncePerSleep LiveFrame CancelFalseNoEffect DestroyCancelsPending
+PROPERTIES StopHitsOwn ExactlyOncePerSleep LiveFrame CancelFalseNoEffect DestroyCancelsPending
 CHECK_DEADLOCK FALSE
